@@ -2,6 +2,8 @@ import TongoModel.PoolSelect
 import TongoModel.PoolSM
 import TongoProofs.Lemmas.PoolSelect
 import TongoProofs.Lemmas.PoolSMDeadlock
+import TongoGen.PoolSeqno
+import TongoProofs.Lemmas.GenTiesA
 /-! Property C13 — the connection pool picks a healthy, current server and its waits never hang.
 Property theorems only (helper lemmas live in TongoProofs/Lemmas/PoolSelect.lean, PoolSM*.lean).
 
@@ -120,6 +122,18 @@ example :
     let cs : List Conn := [⟨0, true, 98#32, 5⟩, ⟨1, false, 100#32, 1⟩, ⟨2, true, 99#32, 7⟩, ⟨3, true, 100#32, 7⟩]
     (∀ c ∈ cs, c.seqno.toNat < 2 ^ 32 - 1) ∧ updateBest true .bestPing cs none = some ⟨2, true, 99#32, 7⟩ ∧
     updateBest false .firstWorking cs none = some ⟨2, true, 99#32, 7⟩ := by decide
+
+/-- tie (X4, regenerated from liteapi/pool/conn_pool.go): the acceptance test of `findFirstWorkingConnection`
+(`uint64(c.MasterHead().Seqno)+1 >= uint64(maxSeqno)`), as REGENERATED on every run, is the model's `working false`. -/
+theorem gen_firstWorkingAccepts (m : BitVec 32) (c : Conn) :
+    Gen.PoolSeqno.firstWorkingAccepts m c.seqno = working false m c :=
+  GenTies.gen_firstWorkingAccepts m c
+
+/-- tie (X4, regenerated from liteapi/pool/conn_pool.go): the skip test of `findBestPingConnection`
+(`uint64(c.MasterHead().Seqno)+1 < uint64(maxSeqno)`), as REGENERATED on every run, is the negation of `working false`. -/
+theorem gen_bestPingSkips (m : BitVec 32) (c : Conn) :
+    Gen.PoolSeqno.bestPingSkips m c.seqno = !working false m c :=
+  GenTies.gen_bestPingSkips m c
 
 /-! ## Part 2: the wait protocol (`TongoModel/PoolSM.lean`)
 
